@@ -122,6 +122,14 @@ CHECKS = {
             "assembled from components; calendar invariants are checked over a sweep of day numbers; no date library is involved in "
             "any expected value.",
             "Trusted: TLC, BigInt. IANA rules outside the hand-encoded table and inexact duration texts are out of model.", "5/C11"),
+    "C15": ("TLA+ spec CelJson (ToCel, Encode, Navigate, base64 / RFC 3339 / seconds text) checked by TLC (Encode(ToCel(d)) = d, paths commute); "
+            "every model document and special value replayed through json_to_cel, CELJSONDecoder, CELJSONEncoder and CEL navigation under "
+            "both runners; random documents validated by Trace_C15",
+            "TLC enumerates JSON documents to depth 2 over scalar pools (booleans next to 0 / 1, int64 limits, -0.0, extreme exponents, "
+            "empty and non-ASCII strings / keys) and CEL timestamps, durations and bytes; the library must produce the CEL value the "
+            "specification maps the document to (type tags included), serialise it back to an equal document (type-strict comparison), "
+            "and reach with .field / [\"key\"] / [i] exactly the element the path reaches in the document.",
+            "Trusted: TLC, Python's json parser for number text. NaN / infinities are not JSON and are not generated.", "5/C15"),
 }
 NOT_YET = "check not built yet in this phase (planned per DESIGN.md section 5)"
 
